@@ -639,6 +639,61 @@ func (p c13) Run(w *mon.Worker, idx int) mon.Result {
 		finding = explained
 		res.Tags = append(res.Tags, "traverse:"+explained)
 	}
+	// route 4: exploding one sub-tree in place leaves a document that can still be read, with the same value
+	// (anchors other aliases refer to must survive)
+	if idx%4 == 2 && finding == "" {
+		n4 := 0
+		var perr4 string
+		want.Walk(nil, func(pth []any, n *ref.V) {
+			if perr4 != "" || n.IsScalar() || len(n.A)+len(n.M) == 0 || len(pth) == 0 || len(pth) > 2 || n4 >= 4 {
+				return
+			}
+			// only sub-trees that define no anchor themselves: explode strips the anchors INSIDE what it explodes
+			// (by design), and an alias elsewhere to such an anchor is then left dangling
+			if an := c13ASTAt(root, pth); an == nil || c13HasAnchor(an) {
+				return
+			}
+			var sb strings.Builder
+			for _, k := range pth {
+				switch kk := k.(type) {
+				case string:
+					sb.WriteString("." + kk)
+				case int:
+					fmt.Fprintf(&sb, "[%d]", kk)
+				}
+			}
+			n4++
+			ex := "explode(" + sb.String() + ")"
+			yo, e1, p1 := yqx.Eval(ex, text, "yaml", "yaml")
+			res.Evals++
+			if e1 != nil || p1 != nil {
+				perr4 = fmt.Sprintf("`%s` failed: %v %v", ex, e1, p1)
+				return
+			}
+			jo, e2, p2 := yqx.Eval(".", yo, "yaml", "json")
+			res.Evals++
+			if e2 != nil || p2 != nil {
+				perr4 = fmt.Sprintf("the document printed by `%s` cannot be read back: %v %v\n--- output ---\n%s", ex, e2, p2, clipStr(yo, 900))
+				return
+			}
+			vv, pe := ref.ParseJSONStream(jo)
+			if pe != nil || len(vv) != 1 {
+				perr4 = fmt.Sprintf("after `%s` the document converts to %q", ex, clipStr(jo, 200))
+				return
+			}
+			if !sameUnordered(vv[0], want) {
+				if _, ok := explain(vv[0], whole, false); !ok {
+					perr4 = fmt.Sprintf("after `%s` the document means something else\n expected %s\n observed %s\n--- output ---\n%s", ex, canon(want), canon(vv[0]), clipStr(yo, 900))
+				}
+			}
+		})
+		if perr4 != "" {
+			return fail("%s\n--- input ---\n%s", perr4, text)
+		}
+		if n4 > 0 {
+			res.Tags = append(res.Tags, "partial_explode")
+		}
+	}
 	if finding != "" {
 		res.Verdict, res.FindingID = mon.Finding, finding
 		res.Detail = "resolution differs from the merge-key rules exactly as the recorded deviation predicts"
@@ -770,4 +825,54 @@ func without(xs []string, x string) []string {
 		}
 	}
 	return out
+}
+
+
+// c13ASTAt follows a path of explicit keys / positions through the generator tree (nil when a step goes
+// through an alias or a merged-in key: those are not sub-trees of the text at that place).
+func c13ASTAt(n *aNode, pth []any) *aNode {
+	for _, k := range pth {
+		if n == nil {
+			return nil
+		}
+		switch kk := k.(type) {
+		case string:
+			if n.kind != "map" {
+				return nil
+			}
+			var next *aNode
+			for _, e := range n.entries {
+				if e.merge == nil && e.key == kk {
+					next = e.v // the last explicit entry of that name wins
+				}
+			}
+			n = next
+		case int:
+			if n.kind != "seq" || kk >= len(n.items) {
+				return nil
+			}
+			n = n.items[kk]
+		}
+	}
+	return n
+}
+
+func c13HasAnchor(n *aNode) bool {
+	if n == nil {
+		return false
+	}
+	if n.anchor != "" {
+		return true
+	}
+	for _, it := range n.items {
+		if c13HasAnchor(it) {
+			return true
+		}
+	}
+	for _, e := range n.entries {
+		if c13HasAnchor(e.v) {
+			return true
+		}
+	}
+	return false
 }
